@@ -266,8 +266,11 @@ func inlineNewHelpers(p *Program) (map[*ssa.Function]bool, error) {
 		if !used[g] && !ast.IsExported(g.Name()) {
 			drop[g] = true
 			p.InlinedAway = append(p.InlinedAway, topName(g))
+		} else {
+			p.NewKept = append(p.NewKept, topName(g))
 		}
 	}
 	sort.Strings(p.InlinedAway)
+	sort.Strings(p.NewKept)
 	return drop, nil
 }
